@@ -308,9 +308,9 @@ def rule_ws(ctx):
 
 
 def run(ctx):
-    rule_r1(ctx)
-    rule_r2(ctx)
-    rule_r3(ctx)
-    rule_r4(ctx)
-    rule_r5(ctx)
-    rule_ws(ctx)
+    ctx.guard(rule_r1)
+    ctx.guard(rule_r2)
+    ctx.guard(rule_r3)
+    ctx.guard(rule_r4)
+    ctx.guard(rule_r5)
+    ctx.guard(rule_ws)
